@@ -25,6 +25,8 @@ type FakeStream struct {
 	OnSend func(b SentBatch)
 	// SendDelay, if set, is slept (virtually) inside Send before recording
 	SendDelay func() time.Duration
+	// SendLag: virtual time between the batch reaching the client and Send returning
+	SendLag func() time.Duration
 	closed    bool
 }
 
@@ -84,6 +86,13 @@ func (f *FakeStream) Send(r *pubsubpb.StreamingPullResponse) error {
 	f.mu.Unlock()
 	if cb != nil {
 		cb(b)
+	}
+	// the batch is with the client; the server's Send call has not returned yet
+	// (a write to the transport completes before the writing goroutine runs on)
+	if f.SendLag != nil {
+		if d := f.SendLag(); d > 0 {
+			time.Sleep(d)
+		}
 	}
 	return nil
 }
